@@ -212,14 +212,25 @@ func (c *Ctx) unfoldInstances(text string) []string {
 	var out []string
 	seen := map[string]bool{}
 	frontier := text
+	// beyond unfoldDepth only chains whose numeral counter strictly decreases are followed (absentCount(b, 24) -> 23 ->
+	// ...); a counter that grows (a sum taken from index 0 upwards) is a symbolic bound in disguise
+	prevMin := int64(1) << 62
 	for d := 0; d < unfoldDepthConst; d++ {
 		var next strings.Builder
+		curMin := int64(1) << 62
 		for fn, rs := range c.recSpecs {
 			for _, args := range findApps(frontier, fn) {
 				if len(args) != len(rs.params) {
 					continue
 				}
-				if d >= unfoldDepth && !hasNumeralArg(args) {
+				if mn, ok := minNumeralArg(args); ok {
+					if d >= unfoldDepth && mn >= prevMin {
+						continue
+					}
+					if mn < curMin {
+						curMin = mn
+					}
+				} else if d >= unfoldDepth {
 					continue
 				}
 				app := "(" + fn + " " + strings.Join(args, " ") + ")"
@@ -248,6 +259,25 @@ func (c *Ctx) unfoldInstances(text string) []string {
 		if frontier == "" {
 			break
 		}
+		prevMin = curMin
 	}
 	return out
+}
+
+// minNumeralArg returns the smallest numeral among the arguments of an application, if there is one.
+func minNumeralArg(args []string) (int64, bool) {
+	best, ok := int64(0), false
+	for _, a := range args {
+		if a == "" || !isNumLit(a) || len(a) > 15 {
+			continue
+		}
+		var n int64
+		for _, ch := range a {
+			n = n*10 + int64(ch-'0')
+		}
+		if !ok || n < best {
+			best, ok = n, true
+		}
+	}
+	return best, ok
 }
